@@ -177,6 +177,7 @@ class Tensor:
         self.device = _CPU
         self.grad = None
         self.requires_grad = False
+        self._version = 0  # bumped by in-place operations on this object (views are not tracked)
 
     # -- structure --------------------------------------------------------------------------
     def _new(self, a, dtype=None):
@@ -233,7 +234,10 @@ class Tensor:
         return self
 
     def contiguous(self):
-        return self
+        # torch returns self for a contiguous tensor and a fresh copy otherwise (e.g. after t() / transpose)
+        if self.a.flags["C_CONTIGUOUS"]:
+            return self
+        return self._new(np.ascontiguousarray(self.a))
 
     def is_floating_point(self):
         return self.dtype.kind == "f"
@@ -297,6 +301,7 @@ class Tensor:
 
     def copy_(self, o):
         self.a[...] = o.a if o.dtype.kind == self.dtype.kind else o._cast(self.dtype).a
+        self._version += 1
         return self
 
     def repeat(self, *reps):
@@ -367,6 +372,7 @@ class Tensor:
         else:
             v = val
         self.a[_idx(idx)] = v
+        self._version += 1
 
     def __eq__(self, o):
         ob = o.a if isinstance(o, Tensor) else o
@@ -509,6 +515,7 @@ class Tensor:
         if r.dtype.kind == "f" and self.dtype.kind != "f":
             raise RuntimeError("result type Float can't be cast to the desired output type Long")
         self.a[...] = r.a
+        self._version += 1
         return self
 
     def add_(self, o, alpha=None):
@@ -670,6 +677,7 @@ class Tensor:
         r.device = self.device
         r.grad = _copy.deepcopy(self.grad, memo)
         r.requires_grad = self.requires_grad
+        r._version = 0
         return r
 
 
@@ -907,8 +915,13 @@ def _fa(x):
 def _write_out(r, out):
     if out is not None:
         if out.a.shape != r.a.shape:
-            raise RuntimeError("out= tensor of the wrong shape (resize is not modelled)")
+            # torch resizes `out` (with a deprecation warning when it had elements); same element count keeps the storage
+            if out.a.size == r.a.size:
+                out.a = out.a.reshape(r.a.shape)
+            else:
+                out.a = np.empty(r.a.shape, dtype=out.a.dtype)
         out.a[...] = r.a
+        out._version += 1
         return out
     return r
 
@@ -1258,6 +1271,7 @@ class Module:
         for k, p in own.items():
             if k in sd:
                 p.a[...] = sd[k].a
+                p._version += 1
 
     def to(self, *a, **k):
         return self
@@ -1344,6 +1358,7 @@ class SGD(Optimizer):
                 if p.grad is None:
                     continue
                 p.a[...] = (p._new(p.a) - p.grad * lr).a
+                p._version += 1
 
 
 class _LRScheduler:
